@@ -42,16 +42,18 @@ def opImage (fmt : String) (w h : String) (ws : List String) : String :=
 
 /-! trace programs -/
 
-def parseEvent (t : String) : Option Op :=
+/-- `none` = the pause token `Z` (the thread sleeps; not an API call, only the clock advances) -/
+def parseEvent (t : String) : Option (Option Op) :=
   match t.splitOn "." with
-  | ["E"] => some .end_
-  | ["B", n, c] => some (.begin n (if c == "-" then none else some c))
-  | ["M", n, c] => some (.marker n (if c == "-" then none else some c))
-  | ["C", n, v] => v.toNat?.map fun x => .counter n x
-  | ["N", n] => some (.setName n)
+  | ["E"] => some (some .end_)
+  | ["Z"] => some none
+  | ["B", n, c] => some (some (.begin n (if c == "-" then none else some c)))
+  | ["M", n, c] => some (some (.marker n (if c == "-" then none else some c)))
+  | ["C", n, v] => v.toNat?.map fun x => some (.counter n x)
+  | ["N", n] => some (some (.setName n))
   | _ => none
 
-partial def parseProgram : List String → Option (List Op)
+partial def parseProgram : List String → Option (List (Option Op))
   | [] => some []
   | t :: rest =>
     if t.startsWith "*" then
@@ -70,19 +72,20 @@ partial def parseProgram : List String → Option (List Op)
       | _, _ => none
 
 structure St where
-  progs : List (Nat × List Op) := []
+  progs : List (Nat × List (Option Op)) := []
 
-def addProg (ps : List (Nat × List Op)) (k : Nat) (ops : List Op) : List (Nat × List Op) :=
+def addProg (ps : List (Nat × List (Option Op))) (k : Nat) (ops : List (Option Op)) : List (Nat × List (Option Op)) :=
   if ps.any (·.1 == k) then ps.map fun (k', p) => if k' == k then (k', p ++ ops) else (k', p)
   else ps ++ [(k, ops)]
 
 /-- round-robin interleaving of the thread programs into one call sequence (oldest first) -/
-partial def interleave (ps : List (Nat × List Op)) (clock : Nat) (acc : Array Call) : Array Call :=
+partial def interleave (ps : List (Nat × List (Option Op))) (clock : Nat) (acc : Array Call) : Array Call :=
   let live := ps.filter (!·.2.isEmpty)
   if live.isEmpty then acc else
   let (acc', clock') := live.foldl (fun (a, c) (k, p) =>
     match p with
-    | op :: _ => (a.push ⟨k, op, c⟩, c + 37000)
+    | some op :: _ => (a.push ⟨k, op, c⟩, c + 37000)
+    | none :: _ => (a, c + 250000)
     | [] => (a, c)) (acc, clock)
   interleave (live.map fun (k, p) => (k, p.drop 1)) clock' acc'
 
